@@ -290,8 +290,18 @@ namespace hgraph
         }
 
         void tsl_map_node_stop(const NodeView &view, DateTime) {
-            auto typed = view.as<TslMapNodeView>();
-            MemoryUtils::cast<TslMapNodeStorage>(typed.internal_storage())->stop_and_destroy_noexcept();
+            auto  typed   = view.as<TslMapNodeView>();
+            auto &storage = *MemoryUtils::cast<TslMapNodeStorage>(typed.internal_storage());
+            // Every child gets its stop even when an earlier one throws; the
+            // first failure is rethrown once the node's own state is released.
+            FirstExceptionRecorder exceptions;
+            for (std::size_t index = 0; index < storage.entries.slot_capacity(); ++index) {
+                auto *entry = storage.entries.entry_at(index);
+                if (entry == nullptr || !entry->graph.has_value() || !entry->graph.view().started()) { continue; }
+                exceptions.capture([&] { entry->graph.view().stop(); });
+            }
+            storage.stop_and_destroy_noexcept();
+            exceptions.rethrow_if_any();
         }
 
         void validate_tsl_map_node_spec(const NodeTypeMetaData &meta, const TslMapNodeSpec &spec) {
